@@ -189,6 +189,8 @@ class System:
         kind, _, bounded = kind.partition("+")
         ms = BOUND if bounded else 0
         self.kind = kind
+        self.bounded = bool(bounded)
+        self.flood_full = self.flood_refused = None
         self.net = FakeNet()
         self.clock = FakeClock(1000, clock_rate)
         tcpmod.socket = self.net
@@ -293,6 +295,7 @@ class System:
         self.producer.subscribe(self.flow)
         self.forwarder.subscribe(self.flow)
         self.errors = []
+        self.tolerated = 0
         self.entry = {}
         self._n = 0
 
@@ -302,7 +305,7 @@ class System:
         if what not in self.entry[role]:
             self.entry[role].append(what)
 
-    def as_role(self, role, fn, *a, wait=True, what=None):
+    def as_role(self, role, fn, *a, wait=True, what=None, tolerate=None):
         spy = self.spy
         self.note(role, what or getattr(fn, "__qualname__", str(fn)))
         box = {}
@@ -313,6 +316,9 @@ class System:
                 box["r"] = fn(*a)
             except Exception as e:                      # noqa
                 box["e"] = e
+                if tolerate is not None and tolerate(e):
+                    self.tolerated += 1
+                    return
                 self.errors.append("%s: %s: %s" % (role, type(e).__name__, e))
         t = threading.Thread(target=body, name=role, daemon=True)
         t.start()
@@ -386,6 +392,25 @@ class System:
                 return
         raise Stall("engine does not come to rest (dispatched %d, responded %d)" % (self.dispatched, self.responded))
 
+    def flood(self):
+        """Bounded system: more local decider changes than the outgoing queue holds while the outgoing thread takes
+        none.  The documented behaviour is a BoboDistributedSystemError("Outgoing queue is full.") out of the update
+        cycle; an operation that WAITS for room here waits under the engine, decider and distributed locks, which
+        the outgoing thread needs (decider.snapshot() for a RESYNC) before it can take an item."""
+        import queue as _q
+
+        def expected(e):
+            return isinstance(e, _q.Full) or "queue is full" in str(e).lower()
+        self.clock.t += 40                              # both peers are due for a RESYNC (snapshot) again
+        n0 = self.tolerated
+        for _ in range(BOUND + 6):
+            self.as_role("feeder", self.receiver.add_data, "a", what="receiver.add_data", tolerate=expected)
+            self.as_role("engine", self.engine.update, what="engine.update (outgoing queue full)", tolerate=expected)
+        self.flood_full = self.dist.size_outgoing()
+        self.flood_refused = self.tolerated - n0
+        self.outgoing(3)
+        self.observe()
+
     def getters(self):
         d = self.decider
         self.engine.is_closed(), self.receiver.size(), self.receiver.is_closed(), d.size(), d.is_closed()
@@ -453,6 +478,8 @@ class System:
         self.clock.t += 70
         self.outgoing(2)
         self.observe()
+        if self.bounded:
+            self.flood()
 
         # shutdown: engine.run() loop stopped by close(); dist closed, joined; handler closed
         et = self.as_role("engine", self.engine.run, wait=False, what="engine.run")
@@ -470,6 +497,7 @@ class System:
                       + (" -> receiver.add_data" if self.kind == "threads" else " (worker processes share no lock)"))
         out = spy.dump()
         out.update(kind=self.full_kind, entrypoints=self.entry, errors=self.errors,
+                   flood_outgoing_size=self.flood_full, flood_refused=self.flood_refused,
                    local_notifications=self.seen_local, remote_notifications=self.seen_remote,
                    incoming_accepted=self.net.accepted, outgoing_sent=len(self.net.sent))
         return out
@@ -795,7 +823,10 @@ def run(ctx, res):
             res.extra.setdefault("per_kind", {})[kind] = {
                 k: r[k] for k in ("acquisitions", "reentrant", "instances", "same_name_nesting", "distinguished",
                                   "never_acquired", "queue_blocking_calls", "local_notifications", "remote_notifications",
-                                  "incoming_accepted", "outgoing_sent")}
+                                  "incoming_accepted", "outgoing_sent", "flood_outgoing_size", "flood_refused")}
+            if "+bounded" in kind and (r["flood_outgoing_size"] != BOUND or not r["flood_refused"]):
+                res.errors.append("workload (%s): the flood phase did not fill the outgoing queue (size %s, refused %s)"
+                                  % (kind, r["flood_outgoing_size"], r["flood_refused"]))
     flist = sorted(facts)
     roles = sorted(set(f[0] for f in flist))
     untagged = [r for r in roles if r.startswith("untagged")]
@@ -917,6 +948,19 @@ def replay(obj):
     elif mode == "stress":
         print("free-running threads, wait-for watchdog (%s handler, %s s)" % (case["kind"], case.get("seconds", 8)))
         r = _collect(_spawn(["--stress", case["kind"], str(case.get("seconds", 8))], 60))
+    elif mode == "record" and case.get("kind"):
+        print("recorded workload (%s): every role once, then (bounded systems) the outgoing queue is filled while "
+              "the outgoing thread takes nothing" % case["kind"])
+        r = _collect(_spawn(["--record", case["kind"]], 90))
+        wb = r.get("queue_would_block") or []
+        for w in wb:
+            print("  %s() with no timeout on a full/empty queue: role %s, holding %s, at %s" % tuple(w[:4]))
+        if r.get("stalled"):
+            print("  workload stalled:", r["stalled"])
+        bad = bool(wb or (r.get("stalled") and r.get("wait_cycle")))
+        print("a thread waits for a queue while holding locks the other side needs" if bad
+              else "no waiting queue operation reproduced")
+        return 1 if bad else 0
     else:
         print(json.dumps(obj, indent=1)[:3000])
         return 0
